@@ -28,20 +28,75 @@ TCaseStart ==
 
 TCaseEnd == Ev("case_end") /\ Quiescent /\ XQuiescent /\ UNCHANGED <<gaVars, xVars>>
 
-TMk == Ev("mk") /\ Mk(R.h, R.kind, R.items, R.inner, R.blk) /\ UNCHANGED xVars
-TMkElem == Ev("mk_elem") /\ MkElem(R.id) /\ UNCHANGED xVars
-TCall == Ev("call") /\ Call(R) /\ UNCHANGED xVars
-TRet == Ev("ret") /\ (RetPlain(R) \/ RetCb(R) \/ RetX(R)) /\ UNCHANGED xVars
-TUnwound == Ev("unwound") /\ (Unwound(R) \/ UnwoundX(R)) /\ UNCHANGED xVars
-TCb == Ev("cb") /\ Cb(R) /\ UNCHANGED xVars
-TCbRet == Ev("cb_ret") /\ CbRet(R) /\ UNCHANGED xVars
-TClone == Ev("clone") /\ CloneStep(R.src, R.new) /\ UNCHANGED xVars
+(***************************************************************************)
+(* Zero-sized element types cannot carry an identity, so their events log  *)
+(* id 0.  For such cases TLC infers the identities: fresh ids are chosen   *)
+(* by the specification, the elements an event refers to are the ones the  *)
+(* specification predicts (lengths must agree with what was observed), and *)
+(* an anonymous destructor run may be that of any element the library      *)
+(* currently owes (elements owed in the same scope are interchangeable, so *)
+(* the least one of each scope is tried).                                  *)
+(***************************************************************************)
+Iota(a, k) == [i \in 1..k |-> a + i - 1]
+ZItems(obs, pred) == IF Len(obs) = Len(pred) THEN pred ELSE obs
+SortedLoose == CHOOSE s \in [1..Cardinality(loose) -> loose] :
+                  \A i, j \in 1..Cardinality(loose) : i < j => s[i] < s[j]
+
+PredOuts(r) ==
+    IF IsCbOp(op.name)
+    THEN (IF op.name \in Folds THEN <<>>
+          ELSE <<IF op.name = "iter_clone" /\ DOMAIN op.cmap = SeqRange(op.srcs[1])
+                 THEN [i \in DOMAIN op.srcs[1] |-> op.cmap[op.srcs[1][i]]] ELSE op.out>>)
+    ELSE IF IsCollectOp(op.name) THEN <<op.got>>
+    ELSE LET e == Sem(op.name, op.srcs, op.arg, op.elems) IN [i \in DOMAIN e.outs |-> e.outs[i].items]
+PredVals == IF IsCbOp(op.name) \/ IsCollectOp(op.name) THEN <<>>
+            ELSE Sem(op.name, op.srcs, op.arg, op.elems).vals
+ZObs(obs) == [i \in DOMAIN obs |->
+                IF obs[i].h \in DOMAIN pool THEN [obs[i] EXCEPT !.items = ZItems(@, pool[obs[i].h].items)] ELSE obs[i]]
+ZRet(r) ==
+    IF ~Anonymous \/ Idle THEN r
+    ELSE LET po == PredOuts(r) IN
+         [r EXCEPT !.outs = [i \in DOMAIN r.outs |->
+                                IF i \in DOMAIN po THEN [r.outs[i] EXCEPT !.items = ZItems(@, po[i])] ELSE r.outs[i]],
+                   !.vals = ZItems(@, PredVals),
+                   !.obs = ZObs(@)]
+ZCall(c) == IF ~Anonymous THEN c
+            ELSE [c EXCEPT !.elems = IF Len(@) <= Cardinality(loose) THEN SubSeq(SortedLoose, 1, Len(@)) ELSE @]
+ZCb(b) == IF ~Anonymous \/ Idle \/ ~IsCbOp(op.name) \/ op.k >= op.n THEN b
+          ELSE [b EXCEPT !.args = IF op.name = "iter_clone" THEN @
+                                  ELSE ZItems(@, CbArgs(op.name, op.srcs, op.n, op.k))]
+ZCbRet(b) == IF ~Anonymous THEN b ELSE [b EXCEPT !.ret = IF Len(@) = 1 THEN <<NewId>> ELSE @]
+ZCloneSrc(src) ==
+    IF ~Anonymous \/ Idle \/ op.name \notin {"clone", "iter_clone"} \/ op.k >= op.n THEN src
+    ELSE IF op.name = "iter_clone" THEN SetMin(SeqRange(op.srcs[1]) \ DOMAIN op.cmap)
+    ELSE op.srcs[1][op.k + 1]
+ZId(id) == IF Anonymous THEN NewId ELSE id
+\* which elements an anonymous destructor run may belong to
+DropCandidates(id) ==
+    IF ~Anonymous THEN {id}
+    ELSE {SetMin(OwedIn(s)) : s \in {owed[e] : e \in DOMAIN owed}}
+         \cup (IF ~Idle /\ IsCollectOp(op.name) /\ SeqRange(op.got) \ op.gdropped # {}
+               THEN {SetMin(SeqRange(op.got) \ op.gdropped)} ELSE {})
+
+TMk == /\ Ev("mk")
+       /\ Mk(R.h, R.kind, IF Anonymous THEN Iota(NewId, Len(R.items)) ELSE R.items, R.inner, R.blk)
+       /\ UNCHANGED xVars
+TMkElem == Ev("mk_elem") /\ MkElem(ZId(R.id)) /\ UNCHANGED xVars
+TCall == Ev("call") /\ Call(ZCall(R)) /\ UNCHANGED xVars
+TRet == Ev("ret") /\ LET r == ZRet(R) IN (RetPlain(r) \/ RetCb(r) \/ RetX(r)) /\ UNCHANGED xVars
+TUnwound == Ev("unwound") /\ LET u == IF Anonymous THEN [R EXCEPT !.obs = ZObs(@)] ELSE R IN (Unwound(u) \/ UnwoundX(u))
+            /\ UNCHANGED xVars
+TCb == Ev("cb") /\ Cb(ZCb(R)) /\ UNCHANGED xVars
+TCbRet == Ev("cb_ret") /\ CbRet(ZCbRet(R)) /\ UNCHANGED xVars
+TClone == Ev("clone") /\ CloneStep(ZCloneSrc(R.src), ZId(R.new)) /\ UNCHANGED xVars
 TClonePanic == Ev("clone_panic") /\ ClonePanicStep(R.src) /\ UNCHANGED xVars
-TMkDef == Ev("mkdef") /\ DefaultStep(R.id) /\ UNCHANGED xVars
-TDrop == Ev("drop") /\ (DropEv(R.id, R.panic) \/ DropX(R.id, R.panic)) /\ UNCHANGED xVars
+TMkDef == Ev("mkdef") /\ DefaultStep(ZId(R.id)) /\ UNCHANGED xVars
+TDrop == /\ Ev("drop")
+         /\ \E e \in DropCandidates(R.id) : (DropEv(e, R.panic) \/ DropX(e, R.panic))
+         /\ UNCHANGED xVars
 TRelease == Ev("release") /\ Release(R.h) /\ UNCHANGED xVars
 TReleased == Ev("released") /\ Released(R.h, R.panicked) /\ UNCHANGED xVars
-TReleaseElem == Ev("release_elem") /\ ReleaseElem(R.id) /\ UNCHANGED xVars
+TReleaseElem == Ev("release_elem") /\ ReleaseElem(IF Anonymous /\ loose # {} THEN SetMin(loose) ELSE R.id) /\ UNCHANGED xVars
 TX == l <= Len(Rec) /\ l' = l + 1 /\ XEvent(R)
 
 TNext ==
